@@ -53,9 +53,9 @@ def run(chk):
     scopes = [(S.SC + S.SC_EXTRA, 3), (S.SUB['ign'], S.words_bound(S.SUB['ign'], quick)), (S.ST, 2)]
     for k in ('env', 'args', 'math', 'verb', 'item', 'esc', 'sig', 'names'):
         scopes.append((S.SUB[k], S.words_bound(S.SUB[k], quick)))
-    res = S.explore(chk, 'strings', scopes, invariants=INV, timeout=3000, runs='B', sources=deep([6, 14] if quick else [6, 14, 40]))
+    res = S.explore(chk, 'strings', scopes, invariants=INV, timeout=3000, runs='B', sources=deep([6, 14] if quick else [6, 14, 24]))
     S.model_must_hold(chk, res)
-    sim = S.explore(chk, 'simulate', [(S.ST + S.SC + S.SC_EXTRA, 22, 6)], invariants=INV, timeout=3000, runs='B', simulate=60 if quick else 300, depth=6000)
+    sim = S.explore(chk, 'simulate', [(S.ST + S.SC + S.SC_EXTRA, 22, 6)], invariants=INV, timeout=3000, runs='B', simulate=60 if quick else 120, depth=6000)
     S.model_must_hold(chk, sim)
     bad = S.replay(chk, res.records + sim.records)
     for r in res.records[:6]:
@@ -63,8 +63,8 @@ def run(chk):
     # material TLC did not generate
     docs = S.corpus_sources()
     extra = list(docs)
-    extra += S.mutations(rng, docs, 3 if quick else 12, S.SC + S.SC_EXTRA)
-    extra += S.random_strings(rng, S.ST + S.SC_EXTRA, 300 if quick else 3000, 5, 30)
+    extra += S.mutations(rng, docs, 3 if quick else 4, S.SC + S.SC_EXTRA)
+    extra += S.random_strings(rng, S.ST + S.SC_EXTRA, 300 if quick else 1000, 5, 30)
     extra += deep([12, 40])
     extra += [endnest(6), endnest(10)]
     extra = list(dict.fromkeys(extra))
